@@ -347,3 +347,68 @@ Example C01_example_zero_prefactor :
   = (2, true, Some (true, true, [2; 2]), Some (true, [2; 2])).
 Proof. vm_compute. reflexivity. Qed.
 Print Assumptions C01_example_zero_prefactor.
+
+(* ---- ACCEPTANCE of the BIPARTITE driver (SD/PipelineAccept.v) -------------------------------------------------
+   For ALL trees with pairwise distinct identifiers and ALL NON-EMPTY term lists with pairwise distinct operator
+   strings (any coefficients, zero prefactors included; a padded term is a total labelling of the nodes, so there
+   is no further side condition) the model of StateDiagram.from_hamiltonian(..., TTNOFinder.BIPARTITE) returns
+   `Some`: none of the failure branches of the model is reachable, i.e.
+     - _generate_non_redundant_V_dict never re-hashes (so _remove_reduntant_v_hyperedges meets no empty bucket),
+     - every cut edge has at least one hyperedge on either side (BipartiteGraph's constructor asserts),
+     - minimum_vertex_cover neither runs out of fuel nor fails its own size assert (C14_mvc_main),
+     - after _reconnect_hyperedges every hyperedge of the two nodes has a vertex on the cut edge (Gamma has no
+       empty row and no empty column: every hyperedge of the child node hangs on a vertex that some hyperedge of
+       the parent node uses, all coefficients are != 0 because terms with prefactor 0 are dropped first, and the
+       cover touches every edge of the bipartite graph).
+   Proved by extending the invariant of the BFS run by a part `XF` for every frontier node (it carries a
+   hyperedge, all its hyperedges have a coefficient != 0, every child node still to be cut carries a hyperedge,
+   and the parent vertex of each of those is the cut vertex of some hyperedge of the frontier node), preserved by
+   every merge of combine_subtrees and every cut.  The empty term list is rejected (the code raises on the
+   missing compound diagram): C01_bipartite_empty_rejected. *)
+From PTN Require Import SD.PipelineAccept.
+
+Theorem C01_bipartite_accepts : forall (t : rtree) (H : list pterm), NoDup (ids t) ->
+  NoDup (map (fun tm : pterm => map (snd tm) (ids t)) H) -> H <> [] ->
+  exists d : sd, from_hamiltonian_bipartite t H = Some d.
+Proof. exact bipartite_accepts. Qed.
+Print Assumptions C01_bipartite_accepts.
+
+Theorem C01_bipartite_empty_rejected : forall t : rtree, from_hamiltonian_bipartite t [] = None.
+Proof. exact (fun t => eq_refl). Qed.
+Print Assumptions C01_bipartite_empty_rejected.
+
+(* accepted AND exact: the BIPARTITE construction is total and correct on this class of inputs *)
+Theorem C01_bipartite_total : forall (t : rtree) (H : list pterm), NoDup (ids t) ->
+  NoDup (map (fun tm : pterm => map (snd tm) (ids t)) H) -> H <> [] ->
+  exists d : sd, from_hamiltonian_bipartite t H = Some d /\
+    forall k : key, (coef (sd_denote t d) k == coef (ham_denote t H) k)%Q.
+Proof. exact bipartite_total. Qed.
+Print Assumptions C01_bipartite_total.
+
+(* one cut_and_optimise call under the invariant: the parent node's hyperedges are pairwise different and have
+   one vertex per leg (CutPar), the child sub-diagram is base-shaped with pairwise different terms, and XF holds *)
+Theorem C01_cut_step_accepts : forall (t : rtree) (p : nat) (hp : bool) (cs : list rtree) (c : nat) (ccs : list rtree)
+    (st : pst) (Jc : rtree -> tlist) (todo : list rtree),
+  NoDup (ids t) -> node_at t false p hp cs -> In (RNode c ccs) cs -> In (RNode c ccs) todo ->
+  BaseBelow (hes (p_sd st)) (Jc (RNode c ccs)) (RNode c ccs) -> NoDup (map fst (Jc (RNode c ccs))) ->
+  CutPar (hes (p_sd st)) p hp cs Jc todo -> XF (hes (p_sd st)) p hp cs todo ->
+  exists st' : pst, cut_step t c st = Some st'.
+Proof. exact cut_step_accepts. Qed.
+Print Assumptions C01_cut_step_accepts.
+
+(* non-vacuity: the hypotheses hold for a 4-node tree and 7 terms (pairwise distinct identifiers, pairwise distinct
+   operator strings, one term with prefactor 0), and the construction returns a well-formed certified diagram *)
+Example C01_example_accepts :
+  let t := RNode 0 [RNode 1 [RNode 2 []]; RNode 3 []] in
+  let f := fun (l : list (nat * nat)) (v : nat) => match lookup v l with Some x => x | None => 2 end in
+  let H : list pterm :=
+           [((2 # 1)%Q, 0, f [(0, 10); (1, 11)]); ((3 # 1)%Q, 1, f [(0, 10); (1, 12)]); (1%Q, 0, f [(2, 13); (3, 14)]);
+            (0%Q, 3, f [(1, 12); (3, 14)]);
+            (1%Q, 0, f [(2, 13); (3, 15)]); ((1 # 2)%Q, 0, f [(0, 10); (3, 14)]); ((-1 # 1)%Q, 2, f [(1, 11); (2, 13); (3, 15)])] in
+  (length (nodup Nat.eq_dec (ids t)) =? length (ids t),
+   length (nodup (list_eq_dec Nat.eq_dec) (map (fun tm : pterm => map (snd tm) (ids t)) H)) =? length H,
+   length H, length (live_terms H),
+   match from_hamiltonian_bipartite t H with Some d => Some (sd_wf t d, sd_check t H d) | None => None end)
+  = (true, true, 7, 6, Some (true, true)).
+Proof. vm_compute. reflexivity. Qed.
+Print Assumptions C01_example_accepts.
